@@ -16,6 +16,8 @@ pub enum Term {
     Ovl(Vec<Term>),
     /// an overlay whose n layers are sibling directories (zl1, zl2, ..) of ONE MemoryFS instance
     OvlShared(usize),
+    /// the same, but the layers are sub-PATHS of one VfsPath (no adapter in between): OverlayFS::new(&[m.join("zl1"), m.join("zl2")])
+    OvlSub(usize),
     Fault(Box<Term>),
 }
 
@@ -71,6 +73,12 @@ impl<'a> Parser<'a> {
                 self.expect(b')');
                 Term::OvlShared(n)
             }
+            "ovlsub" => {
+                self.expect(b'(');
+                let n: usize = self.ident().parse().expect("layer count");
+                self.expect(b')');
+                Term::OvlSub(n)
+            }
             "fault" => {
                 self.expect(b'(');
                 let inner = self.term();
@@ -88,7 +96,7 @@ impl Term {
             Term::Mem => "mem",
             Term::Phys => "phys",
             Term::Alt(..) => "alt",
-            Term::Ovl(..) | Term::OvlShared(..) => "ovl",
+            Term::Ovl(..) | Term::OvlShared(..) | Term::OvlSub(..) => "ovl",
             Term::Fault(t) => t.kind(),
         }
     }
@@ -99,13 +107,13 @@ impl Term {
             Term::Phys => vec!["mo", "ac"],
             Term::Alt(_, t) => t.sup(),
             Term::Ovl(v) => v[0].sup(),
-            Term::OvlShared(_) => vec!["cr", "mo", "ac"],
+            Term::OvlShared(_) | Term::OvlSub(_) => vec!["cr", "mo", "ac"],
             Term::Fault(t) => t.sup(),
         }
     }
     pub fn has_phys(&self) -> bool {
         match self {
-            Term::Mem | Term::OvlShared(_) => false,
+            Term::Mem | Term::OvlShared(_) | Term::OvlSub(_) => false,
             Term::Phys => true,
             Term::Alt(_, t) | Term::Fault(t) => t.has_phys(),
             Term::Ovl(v) => v.iter().any(|t| t.has_phys()),
@@ -115,7 +123,7 @@ impl Term {
         match self {
             Term::Mem | Term::Phys => false,
             Term::Alt(_, t) | Term::Fault(t) => t.has_ovl(),
-            Term::Ovl(_) | Term::OvlShared(_) => true,
+            Term::Ovl(_) | Term::OvlShared(_) | Term::OvlSub(_) => true,
         }
     }
 }
@@ -376,6 +384,8 @@ impl FileSystem for FaultFS {
 pub struct Layer {
     pub root: VfsPath, // the layer's own handle (through its RecFS)
     pub log: Arc<RecLog>,
+    /// layers that are sub-paths of one recorded filesystem share its log: calls are attributed by this path prefix
+    pub prefix: Option<String>,
 }
 pub struct Under {
     pub root: VfsPath, // the underlying filesystem's own root (through its RecFS)
@@ -435,6 +445,17 @@ fn build_fs(t: &Term, ctx: &mut Ctx) -> Box<dyn FileSystem> {
         }
         Term::Ovl(layers) => {
             let roots: Vec<VfsPath> = layers.iter().map(|l| VfsPath::new(BoxFS(build_fs(l, ctx)))).collect();
+            Box::new(OverlayFS::new(&roots))
+        }
+        Term::OvlSub(n) => {
+            let shared = VfsPath::new(MemoryFS::new());
+            let roots: Vec<VfsPath> = (1..=*n)
+                .map(|i| {
+                    let d = shared.join(format!("zl{i}")).unwrap();
+                    d.create_dir().unwrap();
+                    d
+                })
+                .collect();
             Box::new(OverlayFS::new(&roots))
         }
         Term::OvlShared(n) => {
@@ -524,7 +545,7 @@ pub fn build(cfg: &str) -> World {
             for l in ls {
                 let log = RecLog::new();
                 let r = VfsPath::new(RecFS { inner: build_fs(l, &mut ctx), log: log.clone() });
-                layers.push(Layer { root: r.clone(), log });
+                layers.push(Layer { root: r.clone(), log, prefix: None });
                 roots.push(r);
             }
             VfsPath::new(OverlayFS::new(&roots))
@@ -538,8 +559,21 @@ pub fn build(cfg: &str) -> World {
                 d.create_dir().unwrap();
                 let log = RecLog::new();
                 let r = VfsPath::new(RecFS { inner: Box::new(AltrootFS::new(d)), log: log.clone() });
-                layers.push(Layer { root: r.clone(), log });
+                layers.push(Layer { root: r.clone(), log, prefix: None });
                 roots.push(r);
+            }
+            VfsPath::new(OverlayFS::new(&roots))
+        }
+        Term::OvlSub(n) => {
+            // top level: ONE recorded MemoryFS, the layers are its sub-paths zl1, zl2, ..
+            let log = RecLog::new();
+            let shared = VfsPath::new(RecFS { inner: Box::new(MemoryFS::new()), log: log.clone() });
+            let mut roots = vec![];
+            for i in 1..=*n {
+                let d = shared.join(format!("zl{i}")).unwrap();
+                d.create_dir().unwrap();
+                layers.push(Layer { root: d.clone(), log: log.clone(), prefix: Some(format!("/zl{i}")) });
+                roots.push(d);
             }
             VfsPath::new(OverlayFS::new(&roots))
         }
